@@ -135,7 +135,7 @@ func (e *Engine) findIndicesNFA(haystack []byte) (int, int, bool) {
 	// (not as an external correctness gate). See pikevm.rs:1293-1299.
 	if e.prefilter != nil && !e.prefilterPartialCoverage {
 		at := 0
-		for at < len(haystack) {
+		if at < len(haystack) {
 			// Find next candidate position via prefilter
 			pos := e.prefilter.Find(haystack, at)
 			if pos == -1 {
@@ -155,9 +155,11 @@ func (e *Engine) findIndicesNFA(haystack []byte) (int, int, bool) {
 				return start, end, true
 			}
 
-			// Move past this position
+			// Both engines search unanchored from the candidate to the end of the
+			// haystack, so no match starts at or after pos. Verifying the remaining
+			// candidates too would repeat that O(n) scan per candidate (O(n^2)).
 			atomic.AddUint64(&e.stats.PrefilterMisses, 1)
-			at = pos + 1
+			return -1, -1, false
 		}
 		return -1, -1, false
 	}
@@ -187,7 +189,7 @@ func (e *Engine) findIndicesNFAAt(haystack []byte, at int) (int, int, bool) {
 
 	// Use prefilter candidate loop — safe unless partial coverage (overflow)
 	if e.prefilter != nil && !e.prefilterPartialCoverage {
-		for at < len(haystack) {
+		if at < len(haystack) {
 			pos := e.prefilter.Find(haystack, at)
 			if pos == -1 {
 				return -1, -1, false
@@ -205,8 +207,9 @@ func (e *Engine) findIndicesNFAAt(haystack []byte, at int) (int, int, bool) {
 				return start, end, true
 			}
 
+			// Unanchored search failed: no match at or after pos (see findIndicesNFA).
 			atomic.AddUint64(&e.stats.PrefilterMisses, 1)
-			at = pos + 1
+			return -1, -1, false
 		}
 		return -1, -1, false
 	}
@@ -1180,7 +1183,7 @@ func (e *Engine) findIndicesNFAAtWithState(haystack []byte, at int, state *Searc
 	// Use prefilter candidate loop — safe unless partial coverage (overflow).
 	// Partial-coverage prefilters would miss unrepresented branches.
 	if e.prefilter != nil && !e.prefilterPartialCoverage {
-		for at < len(haystack) {
+		if at < len(haystack) {
 			pos := e.prefilter.Find(haystack, at)
 			if pos == -1 {
 				return -1, -1, false
@@ -1198,8 +1201,9 @@ func (e *Engine) findIndicesNFAAtWithState(haystack []byte, at int, state *Searc
 				return start, end, true
 			}
 
+			// Unanchored search failed: no match at or after pos (see findIndicesNFA).
 			atomic.AddUint64(&e.stats.PrefilterMisses, 1)
-			at = pos + 1
+			return -1, -1, false
 		}
 		return -1, -1, false
 	}
